@@ -237,7 +237,7 @@ class BaseOdeModel(object):
                 # types of parameter input.  One is when we initialize and
                 # another when we set new ones
                 if hasattr(self, "_parameters"):
-                    param_out = self._parameters
+                    param_out = dict(self._parameters)
 
                 # extra the key from the parameters dictionary
                 for inParam in parameters:
